@@ -187,6 +187,30 @@ class C16(Prop):
         except Exception as e:
             return {"status": "build-error", "detail": f"{type(e).__name__}: {e}"[:200]}
         values = self._values_from_spec(spec, dict((k, v) for k, v in case["known"]))
+        # history: a SIBLING of the configured graph (same structure, another entry point, derived from the same base object) runs first in
+        # this process; nothing it computed may carry over
+        base = env.bases.get(len(graphs) - 1)
+        root_spec = case["program"][-1]
+        if base is not None and root_spec.get("entrypoints"):
+            import warnings as _w
+
+            from hypergraph import SyncRunner as _SR
+
+            others = [n["name"] for n in root_spec["nodes"] if n["kind"] not in ("route", "ifelse") and n["name"] not in root_spec["entrypoints"]]
+            saved = (env.log, env.park, env.inflight, env.max_inflight, env.received)
+            env.log, env.park, env.received = [], None, []
+            try:
+                for other in others[:2]:
+                    try:
+                        sib = base.with_entrypoint(other)
+                        with _w.catch_warnings():
+                            _w.simplefilter("ignore")
+                            if not async_bodies:
+                                _SR().run(sib, {k: 1 for k in sib.inputs.required}, error_handling="continue", max_iterations=20)
+                    except Exception:  # noqa: BLE001 - the sibling's own fate is irrelevant
+                        pass
+            finally:
+                env.log, env.park, env.inflight, env.max_inflight, env.received = saved
         obs = impl.run_case(case["program"], None, values, case["cfg"], case["runner"], env=env, graphs=graphs, record_events=False)
         obs["values_used"] = values
         obs["invalid_select"] = invalid_select
